@@ -116,7 +116,7 @@ def extract(g, X):
     def width():
         b = X.fn_body(pxr, "read_u64_from_stream")
         (wd,) = X.fn_params(pxr, "read_u64_from_stream")[:1]
-        m = re.search(r"if\s+" + wd + r"\s*>\s*(?:std::)?mem::size_of::<(\w+)>\(\)", b)
+        m = re.search(r"if\s+" + wd + r"\s*>\s*(?:(?:std::|core::)?mem::)?size_of::<(\w+)>\(\)", b)
         i = re.search(r"for\s+(\w+)\s+in\s+\(\s*0\s*\.\.\s*" + wd + r"\s*\)\.rev\(\)", b).group(1)
         s = re.search(r"(" + B + r")\s*\*\s*" + i + r"\b", b) or re.search(r"\b" + i + r"\s*\*\s*(" + B + r")", b)
         return str(BITS[m.group(1)] // 8), str(iv(s.group(1)))
